@@ -6,7 +6,7 @@ import base64, collections, hashlib, json, os, shutil
 import vflib, clirun
 from vflib import ROOT, CACHE
 
-CLS = ["known_C20_chain_name", "known_C20_collision"]
+CLS = []
 
 RULE = ("corpus witnesses (corpus/cli/c20_*.json) + sequences of model sets from the shared generator exported one after another into the same directory: "
         "models added / removed (random subset per step), moved between sub-directories, renamed with the .vespertide infix, json/yaml/yml; three ORMs "
@@ -36,7 +36,7 @@ def run(tier, seed):
     chk.assumptions = [
         "model = coq/cli/Model/ExportTree.v; tie = K-tree evaluated inside Coq on every export run (tree before, models in walk order, tree after)",
         "the exporter is outside this layer: an entity rendering is one opaque content id per table; renderings are identified by comparing bytes with an export into an empty directory (raw bytes, nothing canonicalised)",
-        "the order of the parallel writes is unspecified in Rust; the model writes in list order, which matters only under an output-path collision (such cases are exempt from the content comparison and reported as a finding)",
+        "the order of the parallel writes is unspecified in Rust; the model writes in list order; since fix 18ab122 an output-path collision is refused before anything is written, so the order cannot matter",
         "sanitize_filename is exact for ASCII names (bytes >= 128 are kept); symlinks, permissions and I/O errors other than file-vs-directory clashes are not modelled"]
     chk.cov["trusted_base"] = vflib.TRUSTED_COMMON + [
         "harness_cli/hcli (parses model files with the loader's serde calls), checks/clirun.py (drives the binary, reads directory trees, recognises `pub mod x;` lines)",
@@ -71,12 +71,11 @@ def run(tier, seed):
         dist["model_exts:" + ",".join(sorted({os.path.splitext(m)[1] for m in r["model_files"]}))] += 1
         dist["sub_directories:%s" % ("yes" if any("/" in m for m in r["model_files"]) else "no")] += 1
     chk.cov["distribution"] = {"runs": dict(dist), "skipped_unparsable": res["skipped"], "drive_s": res["drive_s"]}
-    clirun.verdict(chk, "C20", res, CLS, input_of, "K-tree", exempt=1)
+    clirun.verdict(chk, "C20", res, CLS, input_of, "K-tree")
     n = max(len(rows), 1)
     chk.cov["theorem_coverage"].update({
-        "export_canonical / export_idempotent / export_no_residue (all trees, all model lists)": 1.0,
-        "export_entities_exact (no_collision)": round(sum(1 for i, r in enumerate(rows) if not (res["classes"].get(i) or [0, 1])[1]) / n, 3),
-        "mod_chain_reaches_all (chain_names_ok, SeaORM runs)": round(sum(1 for i, r in enumerate(rows) if r["orm"] == "seaorm" and not (res["classes"].get(i) or [1])[0]) / max(sum(1 for r in rows if r["orm"] == "seaorm"), 1), 3)})
+        "export_canonical / export_idempotent / export_no_residue / dirs_minimal (all trees, all model lists)": 1.0,
+        "export_entities_exact / export_collision_refused / mod_chain_reaches_all (all runs)": 1.0})
     return chk.finish()
 
 
